@@ -253,7 +253,9 @@ def emit_dta(sweeps, num, drift=None):
     # ZCURVE table: Pt Time Freq Zreal Zimag Zsig Zmod Zphz [ZrealDrCor ZimagDrCor ZmodDrCor ZphzDrCor] Idc Vdc IERange; +Im(Z)
     (sweep,) = sweeps
     lines = ["EXPLAIN", "TAG\tEISPOT", "TITLE\tLABEL\tPotentiostatic EIS\tTest &Identifier", "\t", "PSTAT\tPSTAT\tREFxxx-yyyyy\tPotentiostat",
-             f"DRIFTCOR\tSELECTOR\t{1 if drift else 0}\t&Drift Correction", "ZGUESS\tQUANT\t1,00000E+002\tE&stimated Z (ohms)", "ZCURVE\tTABLE"]
+             f"DRIFTCOR\tSELECTOR\t{1 if drift else 0}\t&Drift Correction", "ZGUESS\tQUANT\t1,00000E+002\tE&stimated Z (ohms)",
+             # (the instrument software writes the number of rows after TABLE; files exported by other tools leave it out: both occur here)
+             "ZCURVE\tTABLE" + (f"\t{len(sweep)}" if len(sweep) % 2 == 0 else "")]
     if drift:
         lines.append("\tPt\tTime\tFreq\tZreal\tZimag\tZsig\tZmod\tZphz\tZrealDrCor\tZimagDrCor\tZmodDrCor\tZphzDrCor\tIdc\tVdc\tIERange")
         lines.append("\t#\ts\tHz\tohm\tohm\tV\tohm\t°\tohm\tohm\tohm\t°\tA\tV\t#")
